@@ -301,13 +301,13 @@ PROPS = {
                  "failures after commit (OIDC / PKCE session clean-up) refuse the request although the grant is applied; password, hybrid-authorize and PAR-use flows run without a transaction: fail-closed only (Post false)"],
     ),
     "C19": dict(
-        modules=["Fosite.Props.C19"],
+        modules=["Fosite.Props.C19", "Fosite.Props.C19b"],
         facts=True,
-        drivers=[dict(name="lockfacts", kind="lockfacts"), dict(name="stress", kind="stress", seconds={"quick": 4, "thorough": 60})],
-        rule="D7 facts: every method of storage.MemoryStore and hmac.HMACStrategy, and every getter of *Config, as extracted by go/ast on this run (lock / unlock / map access / intra-receiver call events in evaluation order; receiver fields assigned by getters); a method is non-trivial when it takes at least one lock; evaluations = methods extracted. Support: free-running go test -race stress (16 goroutines, overlapping codes / refresh tokens / request URIs / device codes, default-constructed and fully populated Config, deadlock watchdog), evaluations = operations completed",
+        drivers=[dict(name="lockfacts", kind="lockfacts"), dict(name="stress", kind="stress", seconds={"quick": 4, "thorough": 60}), dict(name="hist", kind="hist")],
+        rule="D7 facts: every method of storage.MemoryStore and hmac.HMACStrategy, and every getter of *Config, as extracted by go/ast on this run (lock / unlock / map access / intra-receiver call events in evaluation order; receiver fields assigned by getters); a method is non-trivial when it takes at least one lock; evaluations = methods extracted. Support: free-running go test -race stress (16 goroutines, overlapping codes / refresh tokens / request URIs / device codes, default-constructed and fully populated Config, deadlock watchdog), evaluations = operations completed. Interleavings: history driver with op `par`: two or three operations on overlapping credentials (one code twice, one refresh token twice / against its revocation / against introspection / against a replay of an old generation, one device code twice, one request_uri twice, unrelated grants) run as goroutines against one provider and one store; every storage call parks at a gate and the scheduler releases one call per schedule entry (alternating, sequential, random words), so the interleaving is the prescribed one and the run is deterministic; the Lean driver runs Model.runSched on the same operations and schedule; compared: per-thread outcomes, the thread-tagged storage-call log, the store dump",
         assumptions=["the Go memory model and runtime are not modelled: the theorems are about the lock discipline of the source (which mutex is held at which map access, acquisition order, getter purity) and, through lockset_sound / no_lock_deadlock, about an RWMutex transition system of any number of threads running the extracted programs",
                      "sharing through the values stored in the maps (Session pointers, stored requesters) is outside lock granularity; only the race-detector stress sees it (support, not proof)"],
-        partial=["interleaving-level theorems over the handler model (runSched: final state = fold of the executed steps, handed tokens were stored active) are not built yet",
+        partial=["interleaving theorems (Props/C19b) are over the plain reference store: no faults, no transactional store; one storage call of the model is one atomic step (RotateRefreshToken is two locked sections in the Go store: revoke refresh, then revoke access)",
                  "token generation never repeating rests on rand_fresh (C06 mint theorems)"],
     ),
     "C20": dict(
